@@ -21,7 +21,7 @@ RULE = ('random expression trees of depth 1..6 over + - neg abs *k k* /k %k with
         'distinct = (class, operator, operand-class, sign/zero class) buckets')
 ASSUMPTIONS = ['angle_exact gives the denoted value of every operand/result from the stored fields (exact rationals)',
                'comparisons closer than the 1e-8" resolution may answer either way (DESIGN.md section 5)']
-REQUIRED_COUNTERS = ['modulus_equal_to_angle', 'numpy_scalar_operands', 'round_then_mod_sequences', 'op:add', 'op:sub', 'op:radd', 'op:rsub', 'op:mul', 'op:rmul', 'op:truediv', 'op:neg', 'op:abs', 'op:mod', 'op:eq', 'op:lt',
+REQUIRED_COUNTERS = ['rounding_carry_cases', 'modulus_equal_to_angle', 'numpy_scalar_operands', 'round_then_mod_sequences', 'op:add', 'op:sub', 'op:radd', 'op:rsub', 'op:mul', 'op:rmul', 'op:truediv', 'op:neg', 'op:abs', 'op:mod', 'op:eq', 'op:lt',
                      'op:gt', 'op:ne', 'op:round', 'trees']
 N = {'quick': 400, 'thorough': 6000}
 SHARDS = {'quick': 16, 'thorough': 32}
@@ -486,6 +486,20 @@ def compare_and_round(ns, ctx, rnd, v1, v2, c1, c2):
             r = round(o, rnd.choice([0, 1, 2, 3]))
             r % rnd.choice([360, 180, float(int(abs(d)) + 1), 90])
             ctx.count('round_then_mod_sequences')
+        except Exception:
+            pass
+    # rounding that carries: seconds (minutes) within half a unit of the place below 60, minute field 59 or not, both signs
+    for cls in ('DMSAngle', 'DDMAngle'):
+        n = rnd.choice([0, 1, 2, 3, None])
+        unit = 10.0 ** -(n or 0)
+        D = rnd.choice([0, 1, 10, rnd.randint(0, 359)])
+        M = rnd.choice([59, 59, rnd.randint(0, 58)])
+        frac = 60.0 - unit * rnd.choice([0.4, 0.1, 0.49, 0.6])
+        pos = rnd.random() < 0.5
+        try:
+            o = A.DMSAngle(D, M, frac, positive=pos) if cls == 'DMSAngle' else A.DDMAngle(D, frac, positive=pos)
+            round(o, n)
+            ctx.count('rounding_carry_cases')
         except Exception:
             pass
     # an angle that equals the modulus bit for bit (whole degrees / half degrees are exact): the result must be zero
